@@ -8,7 +8,7 @@ THEOREMS = ["SCP.C08." + t for t in "strReplace_single read_write read_write_no_
 RULE = ("every evaluable line of the shared generators (arithmetic, money, percent phrases, dates, durations, times, units incl. "
         "fractional conversions within and across families, based numbers, variables over 2-3 lines) written in the default "
         "convention and rewritten into each of the conventions (',' '.'), ('.' ','), ('.' ''), (',' ''), with thousands "
-        "separators inserted into literals that have a fraction; metamorphic oracle: identical values (bit-exact) under both "
+        "separators inserted into literals that have a fraction; each configuration is reached from the previous case's one by set_decimal_seperator / set_thousand_separator in either order; metamorphic oracle: identical values (bit-exact) under both "
         "configurations; non-trivial = the line contains a literal with a fraction or a unit/currency conversion; distinct = "
         "distinct (line, convention)")
 ASSUMPTIONS = ["unit conversion renders intermediate values in the configured convention and reads them back (executeCode); its "
@@ -90,7 +90,8 @@ def run(ctx, model_ok):
     for bi, t in enumerate(base):
         for (dec, thou) in rng.sample(CONV, 2 if ctx.quick() else 4):
             t2 = render_ints(rewrite(marked[bi], dec, thou, rng), thou)
-            ops2.append({"op": "cfg", "dec": dec, "thou": thou})
+            # the configuration is reached from whatever the previous case left, by the two setters in either order
+            ops2.append({"op": "cfg", "dec": dec, "thou": thou, "order": rng.choice(["dec-first", "thou-first"])})
             ops2.append({"op": "exec", "lang": "en", "text": t2})
             idx.append((bi, dec, thou, t2))
     ops2.append({"op": "cfg", "dec": ",", "thou": "."})
@@ -109,7 +110,7 @@ def run(ctx, model_ok):
             continue
         if va != vb:
             ctx.oracle_fail({"class": "separator-dependence", "what": f"value differs between the default convention and dec={dec!r} thou={thou!r}",
-                             "ops": [{"op": "exec", "lang": "en", "text": base[bi]}, {"op": "cfg", "dec": dec, "thou": thou}, {"op": "exec", "lang": "en", "text": t2},
+                             "ops": [{"op": "exec", "lang": "en", "text": base[bi]}] + ([ops2[2 * j - 2]] if j else []) + [ops2[2 * j], {"op": "exec", "lang": "en", "text": t2},
                                      {"op": "cfg", "dec": ",", "thou": "."}], "default": va, "other": vb})
         elif len(ctx.samples) < 8 and nontrivial and rng.random() < 0.01:
             ctx.sample({"default": base[bi], "other": t2, "dec": dec, "thou": thou, "value": va})
